@@ -44,9 +44,36 @@ var heapTargets = []string{
 	"stateTracker.Dissociate", "stateTracker.Wipe",
 }
 
+// the profile of the package being translated (set by go2heap / go2heapRegistry)
 var heapStructs = map[string]bool{"nick": true, "channel": true, "ChanPrivs": true}
 var inlineStructs = map[string]bool{"NickMode": true, "ChanMode": true}
 var snapStructs = map[string]bool{"Nick": true, "Channel": true}
+var opaqueIfaces = map[string]bool{} // interface types carried as abstract values
+var heapPkg, heapRoot = "state", "stateTracker"
+var perTypeCounter = false // one allocation counter per struct type (addresses of different types are never compared)
+
+func setStateProfile() {
+	heapStructs = map[string]bool{"nick": true, "channel": true, "ChanPrivs": true}
+	inlineStructs = map[string]bool{"NickMode": true, "ChanMode": true}
+	snapStructs = map[string]bool{"Nick": true, "Channel": true}
+	opaqueIfaces = map[string]bool{}
+	heapPkg, heapRoot, perTypeCounter = "state", "stateTracker", false
+}
+
+func setRegistryProfile() {
+	heapStructs = map[string]bool{"hNode": true, "hList": true}
+	inlineStructs = map[string]bool{}
+	snapStructs = map[string]bool{}
+	opaqueIfaces = map[string]bool{"Handler": true}
+	heapPkg, heapRoot, perTypeCounter = "client", "hSet", true
+}
+
+func allocNames(T string) (next, bump string) {
+	if perTypeCounter {
+		return "hs_next_" + T, "hs_bump_" + T
+	}
+	return "hs_next", "hs_bump"
+}
 
 type hkind int
 
@@ -64,7 +91,10 @@ const (
 	hMapSV  // map[string]*ChanPrivs holding values
 	hUnit
 	hTuple
-	hStrs // []string
+	hStrs   // []string
+	hRoot   // pointer to the root struct (the state itself): Some tt, or None = nil
+	hOpaque // an interface value carried abstractly
+	hPtrs   // []*T for a heap struct T
 )
 
 type htype struct {
@@ -97,6 +127,12 @@ func (t htype) coq() string {
 		return "gmap bytes " + t.name + "_obj"
 	case hStrs:
 		return "list bytes"
+	case hRoot:
+		return "option unit"
+	case hOpaque:
+		return t.name + "_val"
+	case hPtrs:
+		return "list (option positive)"
 	case hUnit:
 		return "unit"
 	case hTuple:
@@ -183,9 +219,11 @@ func heapType(t types.Type) htype {
 		}
 	case *types.Pointer:
 		if n, ok := u.Elem().(*types.Named); ok {
-			if _, isStruct := n.Underlying().(*types.Struct); isStruct && pkgIs(n.Obj().Pkg(), "state") {
+			if _, isStruct := n.Underlying().(*types.Struct); isStruct && pkgIs(n.Obj().Pkg(), heapPkg) {
 				nm := n.Obj().Name()
 				switch {
+				case nm == heapRoot:
+					return htype{k: hRoot}
 				case heapStructs[nm]:
 					return htype{k: hPtr, name: nm}
 				case inlineStructs[nm]:
@@ -198,6 +236,13 @@ func heapType(t types.Type) htype {
 	case *types.Slice:
 		if b, ok := u.Elem().(*types.Basic); ok && b.Kind() == types.String {
 			return htype{k: hStrs}
+		}
+		if et := heapType(u.Elem()); et.k == hPtr {
+			return htype{k: hPtrs, name: et.name}
+		}
+	case *types.Named:
+		if _, isI := u.Underlying().(*types.Interface); isI && pkgIs(u.Obj().Pkg(), heapPkg) && opaqueIfaces[u.Obj().Name()] {
+			return htype{k: hOpaque, name: u.Obj().Name()}
 		}
 	case *types.Map:
 		kt, vt := heapType(u.Key()), heapType(u.Elem())
@@ -234,8 +279,10 @@ func hzero(t htype) string {
 		return "false"
 	case hInt:
 		return "0"
-	case hPtr, hVal, hSnap:
+	case hPtr, hVal, hSnap, hRoot:
 		return "None"
+	case hPtrs, hStrs:
+		return "[]"
 	case hInline:
 		return t.name + "_zero"
 	case hMapSP, hMapPP, hMapSV:
@@ -284,6 +331,9 @@ func (h *heapTr) expr(e ast.Expr) hex {
 	case *ast.Ident:
 		if v, ok := h.vars[h.info.Uses[x]]; ok && v.fields == nil {
 			return hex{t: v.name, ty: v.ty}
+		}
+		if h.isRecv(x) {
+			return hex{t: "Some tt", ty: htype{k: hRoot}} // the receiver of a method that runs is not nil
 		}
 		failf("identifier %s", x.Name)
 	case *ast.SelectorExpr:
@@ -347,7 +397,21 @@ func (h *heapTr) expr(e ast.Expr) hex {
 		if x.Op == token.LAND || x.Op == token.LOR {
 			a, b := h.expr(x.X), h.expr(x.Y)
 			if len(b.pre) > 0 {
-				failf("partial operation under && / ||")
+				// the right operand is evaluated only when the left one does not decide
+				for _, p := range b.pre {
+					if strings.HasPrefix(p, "let s :=") || strings.HasPrefix(p, "s ←") || strings.HasPrefix(p, "'(s,") {
+						failf("effect under && / ||")
+					}
+				}
+				c := h.tmp("c")
+				inner := strings.Join(b.pre, " ") + " Some " + par(b.t)
+				var line string
+				if x.Op == token.LOR {
+					line = c + " ← (if " + a.t + " then Some true else " + inner + ");"
+				} else {
+					line = c + " ← (if " + a.t + " then " + inner + " else Some false);"
+				}
+				return hex{pre: append(append([]string{}, a.pre...), line), t: "(" + c + " : bool)", ty: htype{k: hBool}}
 			}
 			op := " && "
 			if x.Op == token.LOR {
@@ -364,6 +428,8 @@ func (h *heapTr) expr(e ast.Expr) hex {
 				t = "bool_decide (" + a.t + " = " + b.t + ")"
 			case a.ty.k == hPtr && b.ty.k == hPtr:
 				t = "bool_decide (" + a.t + " = " + b.t + ")"
+			case a.ty.k == hRoot && b.ty.k == hPtr && b.ty.name == "?":
+				t = "bool_decide (" + a.t + " = None)"
 			case a.ty.k == hInt && b.ty.k == hInt:
 				t = "bool_decide (" + a.t + " = " + b.t + ")"
 			default:
@@ -414,7 +480,8 @@ func (h *heapTr) alloc(cl *ast.CompositeLit) hex {
 		}
 	}
 	a := h.tmp("a")
-	pre = append(pre, "let "+a+" := hs_next s in", "let s := put_"+n.Obj().Name()+" (hs_bump s) "+a+" ("+n.Obj().Name()+"_mk"+args+") in")
+	nx, bp := allocNames(n.Obj().Name())
+	pre = append(pre, "let "+a+" := "+nx+" s in", "let s := put_"+n.Obj().Name()+" ("+bp+" s) "+a+" ("+n.Obj().Name()+"_mk"+args+") in")
 	return hex{pre: pre, t: "Some " + a, ty: htype{k: hPtr, name: n.Obj().Name()}}
 }
 
@@ -432,6 +499,18 @@ func (h *heapTr) call(x *ast.CallExpr) hex {
 					}
 					return hex{pre: pre, t: "∅", ty: t}
 				}
+				if t.k == hPtrs && len(x.Args) == 2 {
+					if tv, ok := h.info.Types[x.Args[1]]; ok && tv.Value != nil && constant.Sign(tv.Value) == 0 {
+						return hex{t: "[]", ty: t}
+					}
+				}
+			case "append":
+				if len(x.Args) == 2 && !x.Ellipsis.IsValid() {
+					l, e := h.expr(x.Args[0]), h.expr(x.Args[1])
+					if l.ty.k == hPtrs && e.ty.k == hPtr {
+						return hex{pre: append(append([]string{}, l.pre...), e.pre...), t: par(l.t) + " ++ [" + e.t + "]", ty: l.ty}
+					}
+				}
 			case "new":
 				n, ok := namedOf(h.info.TypeOf(x))
 				if ok && inlineStructs[n.Obj().Name()] {
@@ -441,7 +520,8 @@ func (h *heapTr) call(x *ast.CallExpr) hex {
 					h.sig.writes = true
 					a := h.tmp("a")
 					nm := n.Obj().Name()
-					return hex{pre: []string{"let " + a + " := hs_next s in", "let s := put_" + nm + " (hs_bump s) " + a + " " + nm + "_zero in"},
+					nx, bp := allocNames(nm)
+					return hex{pre: []string{"let " + a + " := " + nx + " s in", "let s := put_" + nm + " (" + bp + " s) " + a + " " + nm + "_zero in"},
 						t: "Some " + a, ty: htype{k: hPtr, name: nm}}
 				}
 			case "len":
@@ -460,8 +540,20 @@ func (h *heapTr) call(x *ast.CallExpr) hex {
 		}
 	}
 	if se, ok := x.Fun.(*ast.SelectorExpr); ok {
+		if id, ok := se.X.(*ast.Ident); ok {
+			if pn, ok := h.info.Uses[id].(*types.PkgName); ok && pn.Imported().Path() == "strings" && se.Sel.Name == "ToLower" && len(x.Args) == 1 {
+				a := h.expr(x.Args[0])
+				if a.ty.k != hStr {
+					failf("strings.ToLower")
+				}
+				return hex{pre: a.pre, t: "ext_strings_ToLower " + par(a.t), ty: htype{k: hStr}}
+			}
+		}
 		if sel := h.info.Selections[se]; sel != nil && sel.Kind() == types.MethodVal {
 			rn, _ := namedOf(sel.Recv())
+			if rn == nil {
+				failf("method call %s", exprText(h.pi, x.Fun))
+			}
 			name := rn.Obj().Name() + "." + se.Sel.Name
 			// Copy() of an inline value / of a heap *ChanPrivs
 			if se.Sel.Name == "Copy" && len(x.Args) == 0 {
@@ -520,6 +612,17 @@ func (h *heapTr) call(x *ast.CallExpr) hex {
 				return h.apply(callee, nil, x.Args)
 			}
 			r := h.expr(se.X)
+			if r.ty.k == hRoot {
+				// a method of the root struct called through a pointer that may be nil: Go runs the
+				// method until it uses the receiver; accepted when its first statement is
+				// recv.Lock() / recv.RLock() (a nil receiver panics there), as a nil check here
+				if !startsWithRecvLock(h.info, h.pi.funcs[name]) {
+					failf("%s called through a pointer, and it does not start by locking its receiver", name)
+				}
+				v := h.apply(callee, nil, x.Args)
+				v.pre = append(append(append([]string{}, r.pre...), "_ ← "+r.t+";"), v.pre...)
+				return v
+			}
 			return h.apply(callee, &r, x.Args)
 		}
 	}
@@ -691,7 +794,8 @@ func (h *heapTr) declare(id *ast.Ident, ty htype) *hvar {
 	}
 	name := id.Name
 	switch name {
-	case "s", "o", "a", "e", "r", "v", "c":
+	case "s", "o", "a", "e", "r", "v", "c", "list", "option", "positive", "bool", "unit", "nat", "fst", "snd",
+		"size", "delete", "bytes", "gmap", "tt", "true", "false", "negb", "bool_decide", "is_Some", "HS":
 		name = name + "_"
 	}
 	v := &hvar{name: name, ty: ty}
@@ -704,9 +808,9 @@ func (h *heapTr) fieldUpdate(kind string, target *ast.SelectorExpr, upd func(old
 	h.sig.writes = true
 	if h.isRecv(target.X) {
 		if kind != "delete" {
-			h.sig.ins["stateTracker."+target.Sel.Name] = true
+			h.sig.ins[heapRoot+"."+target.Sel.Name] = true
 		} else {
-			h.sig.dels["stateTracker."+target.Sel.Name] = true
+			h.sig.dels[heapRoot+"."+target.Sel.Name] = true
 		}
 		pre, val := upd("hs_" + target.Sel.Name + " s")
 		return h.lines(pre, ind(d)+"let s := hs_set_"+target.Sel.Name+" s "+par(val)+" in\n", d) + k(d)
@@ -779,7 +883,7 @@ func (h *heapTr) assign(x *ast.AssignStmt, d int, k func(int) string) string {
 		if u, ok := x.Rhs[0].(*ast.UnaryExpr); ok && u.Op == token.AND && x.Tok == token.DEFINE {
 			if cl, ok := u.X.(*ast.CompositeLit); ok {
 				// st := &stateTracker{chans: make(...), nicks: make(...)}: the initial state
-				if n, ok := namedOf(h.info.TypeOf(cl)); ok && n.Obj().Name() == "stateTracker" && h.recv == nil && h.newState {
+				if n, ok := namedOf(h.info.TypeOf(cl)); ok && n.Obj().Name() == heapRoot && h.recv == nil && h.newState {
 					for _, el := range cl.Elts {
 						kv, ok := el.(*ast.KeyValueExpr)
 						if !ok {
@@ -844,7 +948,7 @@ func (h *heapTr) assign(x *ast.AssignStmt, d int, k func(int) string) string {
 		if ft.k == hMapSP || ft.k == hMapPP || ft.k == hMapSV {
 			failf("a map field is replaced (the identity of a map must be fixed by its owner)")
 		}
-		if !v.ty.eq(ft) && !(ft.k == hPtr && v.ty.k == hPtr && v.ty.name == "?") {
+		if !v.ty.eq(ft) && !((ft.k == hPtr || ft.k == hRoot) && v.ty.k == hPtr && v.ty.name == "?") {
 			failf("assignment of a %s to field %s", v.ty.coq(), l.Sel.Name)
 		}
 		return h.fieldUpdate("set", l, func(old string) ([]string, string) {
@@ -888,7 +992,55 @@ func (h *heapTr) assign(x *ast.AssignStmt, d int, k func(int) string) string {
 	return ""
 }
 
+// hs.Lock() / defer hs.Unlock() through an embedded sync.Mutex / RWMutex of the receiver
+func (h *heapTr) recvMutexCall(call *ast.CallExpr) bool {
+	se, ok := call.Fun.(*ast.SelectorExpr)
+	if !ok || !h.isRecv(se.X) {
+		return false
+	}
+	sel := h.info.Selections[se]
+	if sel == nil || sel.Kind() != types.MethodVal {
+		return false
+	}
+	fn, ok := sel.Obj().(*types.Func)
+	if !ok || fn.Pkg() == nil || fn.Pkg().Path() != "sync" {
+		return false
+	}
+	switch fn.Name() {
+	case "Lock", "Unlock", "RLock", "RUnlock":
+		return true
+	}
+	return false
+}
+
+// the body of a method starts with recv.Lock() / recv.RLock(): a nil receiver panics at once
+func startsWithRecvLock(info *types.Info, fd *ast.FuncDecl) bool {
+	if fd == nil || fd.Recv == nil || len(fd.Recv.List[0].Names) != 1 || len(fd.Body.List) == 0 {
+		return false
+	}
+	es, ok := fd.Body.List[0].(*ast.ExprStmt)
+	if !ok {
+		return false
+	}
+	call, ok := es.X.(*ast.CallExpr)
+	if !ok {
+		return false
+	}
+	h := &heapTr{info: info, recv: info.Defs[fd.Recv.List[0].Names[0]]}
+	return h.recvMutexCall(call)
+}
+
 func (h *heapTr) stmt(s ast.Stmt, d int, k func(int) string) string {
+	switch x := s.(type) {
+	case *ast.ExprStmt:
+		if call, ok := x.X.(*ast.CallExpr); ok && h.recvMutexCall(call) {
+			return k(d)
+		}
+	case *ast.DeferStmt:
+		if h.recvMutexCall(x.Call) {
+			return k(d)
+		}
+	}
 	f := &ftrans{pi: h.pi, info: h.info}
 	if h.recv != nil {
 		f.recv = h.recv
@@ -932,7 +1084,35 @@ func (h *heapTr) stmt(s ast.Stmt, d int, k func(int) string) string {
 			h.sig.result = htype{k: hUnit}
 			return ind(d) + "Some s\n"
 		}
-		for _, e := range x.Results {
+		// return &Root{f: make(...)}: the initial state
+		if len(x.Results) == 1 && h.newState && h.recv == nil {
+			if u, ok := x.Results[0].(*ast.UnaryExpr); ok && u.Op == token.AND {
+				if cl, ok := u.X.(*ast.CompositeLit); ok {
+					if n, ok := namedOf(h.info.TypeOf(cl)); ok && n.Obj().Name() == heapRoot {
+						for _, el := range cl.Elts {
+							kv, ok := el.(*ast.KeyValueExpr)
+							if !ok {
+								failf("unkeyed literal")
+							}
+							if v := h.expr(kv.Value); v.t != "∅" || len(v.pre) > 0 {
+								failf("initial field %s", exprText(h.pi, kv.Key))
+							}
+						}
+						h.sig.writes = true
+						h.sig.result = htype{k: hUnit}
+						return ind(d) + "Some hs_init\n"
+					}
+				}
+			}
+		}
+		declared := h.info.Defs[h.fd.Name].(*types.Func).Type().(*types.Signature).Results()
+		for i, e := range x.Results {
+			if tv, ok := h.info.Types[e]; ok && tv.IsNil() && i < declared.Len() {
+				if dt := heapType(declared.At(i).Type()); dt.k == hPtrs || dt.k == hStrs {
+					vals = append(vals, hex{t: "[]", ty: dt})
+					continue
+				}
+			}
 			if id, ok := e.(*ast.Ident); ok {
 				if sv, ok := h.vars[h.info.Uses[id]]; ok && sv.fields != nil {
 					args := ""
@@ -992,6 +1172,8 @@ func (h *heapTr) stmt(s ast.Stmt, d int, k func(int) string) string {
 		return body(d)
 	case *ast.RangeStmt:
 		return h.rangeStmt(x, d, k)
+	case *ast.ForStmt:
+		return h.forStmt(x, d, k)
 	}
 	failf("statement %T", s)
 	return ""
@@ -1036,6 +1218,69 @@ func (h *heapTr) noteResult(vals []hex) {
 	if !h.sig.result.eq(t) {
 		failf("results of different kinds: %s and %s", h.sig.result.coq(), t.coq())
 	}
+}
+
+// for init; cond; post { body }: a loop with FUEL (the class field loop_fuel of the state at loop
+// entry); the condition is tested first, then running out of fuel is None, as a panic.
+func (h *heapTr) forStmt(x *ast.ForStmt, d int, k func(int) string) string {
+	if x.Cond == nil {
+		failf("for without condition")
+	}
+	ast.Inspect(x.Body, func(n ast.Node) bool {
+		switch n.(type) {
+		case *ast.ReturnStmt, *ast.BranchStmt:
+			failf("jump inside a loop")
+		}
+		return true
+	})
+	run := func(d int) string {
+		list := append([]ast.Stmt{}, x.Body.List...)
+		if x.Post != nil {
+			list = append(list, x.Post)
+		}
+		blk := &ast.BlockStmt{List: list, Lbrace: x.Body.Lbrace, Rbrace: x.Body.Rbrace}
+		locals := h.loopLocals(blk)
+		wr := writesIn(h, blk)
+		if wr {
+			h.sig.writes = true
+		}
+		var st, tys []string
+		if wr {
+			st, tys = append(st, "s"), append(tys, "HS")
+		}
+		for _, v := range locals {
+			st, tys = append(st, v.name), append(tys, par(v.ty.coq()))
+		}
+		if len(st) == 0 {
+			failf("loop without state")
+		}
+		acc, accT := tuple(st), strings.Join(tys, " * ")
+		open := "let " + st[0] + " := acc_ in"
+		if len(st) > 1 {
+			open = "let '" + acc + " := acc_ in"
+		}
+		c := h.expr(x.Cond)
+		if c.ty.k != hBool {
+			failf("condition")
+		}
+		body := h.stmts(list, d+3, func(d int) string { return ind(d) + "Some " + par(acc) + "\n" })
+		var b strings.Builder
+		pat := acc
+		if len(st) > 1 {
+			pat = "'" + acc
+		}
+		b.WriteString(ind(d) + pat + " ← go_loop (loop_fuel s)\n")
+		b.WriteString(ind(d+2) + "(fun acc_ : " + accT + " =>\n" + ind(d+3) + open + "\n")
+		b.WriteString(h.lines(c.pre, ind(d+3)+"Some "+par(c.t)+")\n", d+3))
+		b.WriteString(ind(d+2) + "(fun acc_ : " + accT + " =>\n" + ind(d+3) + open + "\n")
+		b.WriteString(body)
+		b.WriteString(ind(d+2) + ") " + par(acc) + ";\n")
+		return b.String() + k(d)
+	}
+	if x.Init != nil {
+		return h.stmt(x.Init, d, run)
+	}
+	return run(d)
 }
 
 // locals assigned in the body of a loop and declared outside it
@@ -1165,7 +1410,7 @@ func (h *heapTr) rangeStmt(x *ast.RangeStmt, d int, k func(int) string) string {
 	if !ok {
 		failf("range over something other than a field")
 	}
-	owner := "stateTracker"
+	owner := heapRoot
 	if !h.isRecv(se.X) {
 		n, _ := namedOf(h.info.TypeOf(se.X))
 		owner = n.Obj().Name()
@@ -1268,14 +1513,14 @@ func (h *heapTr) function(name string, fd *ast.FuncDecl) string {
 	obj := h.info.Defs[fd.Name].(*types.Func)
 	gs := obj.Type().(*types.Signature)
 	binders := "(s : HS)"
-	if name == "NewTracker" {
+	if name == "NewTracker" || name == "handlerSet" {
 		binders = ""
 		h.newState = true
 	}
 	if gs.Recv() != nil {
 		rn, _ := namedOf(gs.Recv().Type())
 		rid := fd.Recv.List[0].Names[0]
-		if rn.Obj().Name() == "stateTracker" {
+		if rn.Obj().Name() == heapRoot {
 			h.recv = h.info.Defs[rid]
 		} else {
 			t := heapType(gs.Recv().Type())
@@ -1332,14 +1577,7 @@ func (h *heapTr) function(name string, fd *ast.FuncDecl) string {
 	return "Definition " + coqName + " " + binders + " : option (" + rt + ") :=\n" + strings.TrimRight(body, "\n") + ".\n"
 }
 
-func go2heap(pkgs map[string]*pkgInfo) string {
-	pi := pkgs["state"]
-	var b strings.Builder
-	b.WriteString(`(* GENERATED from the Go source by /verif/translator (go2heap.go) on every check run — do not edit.
-   Package state's object graph (tracker.go, nick.go, channel.go) over an explicit heap; every type
-   and primitive is a Context variable, instantiated in Proofs/GenEqTracker.v with the records of
-   Model/TrackerImpl.v.  See the header of translator/go2heap.go for the representation. *)
-From stdpp Require Import gmap.
+const heapPrelude = `From stdpp Require Import gmap.
 Open Scope Z_scope.
 Notation bytes := (list N) (only parsing).
 
@@ -1349,7 +1587,142 @@ Fixpoint go_foldM {A S} (f : S -> A -> option S) (s : S) (l : list A) : option S
   | x :: l' => match f s x with Some s' => go_foldM f s' l' | None => None end
   end.
 
-`)
+`
+
+// the class from the Variable / Context lines, then the section header
+func classOf(vars string) string {
+	var cls strings.Builder
+	cls.WriteString("Class heap_ops := {\n")
+	for _, ln := range strings.Split(strings.TrimSpace(vars), "\n") {
+		switch {
+		case strings.HasPrefix(ln, "Variable "):
+			cls.WriteString("  " + strings.TrimSuffix(strings.TrimPrefix(ln, "Variable "), ".") + ";\n")
+		case strings.HasPrefix(ln, "Context {"):
+			for _, t := range strings.Fields(strings.TrimSuffix(strings.TrimPrefix(ln, "Context {"), " : Type}.")) {
+				cls.WriteString("  " + t + " : Type;\n")
+			}
+		case ln != "":
+			cls.WriteString("  " + ln + "\n")
+		}
+	}
+	return strings.TrimSuffix(cls.String(), ";\n") + "\n}.\n\nSection Heap.\nContext `{heap_ops}.\n\n"
+}
+
+func heapFunctions(b *strings.Builder, pi *pkgInfo, targets []string, dir string) {
+	sigs := map[string]*hsig{}
+	wr := map[string]bool{}
+	for _, name := range targets {
+		fd := pi.funcs[name]
+		coqName := "go_" + strings.ReplaceAll(name, ".", "_")
+		if fd == nil {
+			fmt.Fprintf(b, "(* %s: not found *)\nDefinition %s_UNSUPPORTED : unit := tt.\n\n", name, coqName)
+			continue
+		}
+		func() {
+			defer func() {
+				if r := recover(); r != nil {
+					u, ok := r.(unsupported)
+					if !ok {
+						panic(r)
+					}
+					msg := strings.NewReplacer("(*", "( *", "*)", "* )", "\"", "'").Replace(u.msg)
+					fmt.Fprintf(b, "(* %s: unsupported: %s *)\nDefinition %s_UNSUPPORTED : unit := tt.\n\n", name, msg, coqName)
+				}
+			}()
+			var txt string
+			for pass := 0; pass < 2 && txt == ""; pass++ {
+				h := &heapTr{pi: pi, info: pi.pkg.TypesInfo, sigs: sigs, vars: map[types.Object]*hvar{}, wr: wr}
+				txt = h.function(name, fd)
+			}
+			pos := pi.pkg.Fset.Position(fd.Pos())
+			fmt.Fprintf(b, "(* %s — %s/%s *)\n%s\n", name, dir, pos.Filename[strings.LastIndex(pos.Filename, "/")+1:], txt)
+		}()
+	}
+	b.WriteString("End Heap.\n")
+}
+
+var registryTargets = []string{"handlerSet", "hSet.add", "hSet.remove", "hNode.Remove", "hSet.getHandlers"}
+
+// The handler registry of client/dispatch.go: the root is *hSet (field set; the embedded RWMutex is
+// dropped: tie_C04_locks pins the locking), heap structs hNode and hList with ALL their fields as
+// getters / setters (next, prev : pointers; set : pointer to the root, Some tt or nil; event;
+// handler : an abstract value), one allocation counter per struct type, strings.ToLower and the
+// fuel of the for loop as fields of the class.
+func go2heapRegistry(pkgs map[string]*pkgInfo) string {
+	setRegistryProfile()
+	defer setStateProfile()
+	pi := pkgs["client"]
+	top := `(* GENERATED from the Go source by /verif/translator (go2heap.go) on every check run — do not edit.
+   The handler registry of client/dispatch.go (handlerSet, hSet.add, hSet.remove, hNode.Remove,
+   hSet.getHandlers) over an explicit heap of hNode and hList objects; every type and primitive is a
+   field of the class heap_ops, instantiated in Proofs/GenEqRegistry.v.  See translator/go2heap.go. *)
+` + heapPrelude + `(* for init; cond; post { body }: the condition first, then out of fuel = None (as a panic) *)
+Fixpoint go_loop {S} (fuel : nat) (cond : S -> option bool) (body : S -> option S) (st : S) : option S :=
+  match cond st with
+  | Some true => match fuel with
+                 | O => None
+                 | S f => match body st with Some st' => go_loop f cond body st' | None => None end
+                 end
+  | Some false => Some st
+  | None => None
+  end.
+
+`
+	if pi == nil {
+		return top
+	}
+	var b strings.Builder
+	scope := pi.pkg.Types.Scope()
+	var ctypes []string
+	ctypes = append(ctypes, "HS")
+	for _, n := range []string{"hNode", "hList"} {
+		ctypes = append(ctypes, n+"_obj")
+	}
+	ctypes = append(ctypes, "Handler_val")
+	b.WriteString("Context {" + strings.Join(ctypes, " ") + " : Type}.\n")
+	st := scope.Lookup(heapRoot).Type().Underlying().(*types.Struct)
+	for i := 0; i < st.NumFields(); i++ {
+		ft := heapType(st.Field(i).Type())
+		if ft.k == hBad {
+			continue
+		}
+		fmt.Fprintf(&b, "Variable hs_%s : HS -> %s.\nVariable hs_set_%s : HS -> %s -> HS.\n", st.Field(i).Name(), ft.coq(), st.Field(i).Name(), ft.coq())
+	}
+	b.WriteString("(* the set before anything is registered: an empty map, empty heaps *)\nVariable hs_init : HS.\n")
+	for _, n := range []string{"hNode", "hList"} {
+		fmt.Fprintf(&b, "Variable hs_next_%s : HS -> positive.\nVariable hs_bump_%s : HS -> HS.\n", n, n)
+		fmt.Fprintf(&b, "Variable heap_%s : HS -> gmap positive %s_obj.\nVariable put_%s : HS -> positive -> %s_obj -> HS.\n", n, n, n, n)
+		s := scope.Lookup(n).Type().Underlying().(*types.Struct)
+		var args []string
+		for i := 0; i < s.NumFields(); i++ {
+			ft := heapType(s.Field(i).Type())
+			if ft.k == hBad {
+				failf("field %s.%s", n, s.Field(i).Name())
+			}
+			args = append(args, par(ft.coq()))
+			fmt.Fprintf(&b, "Variable %s_get_%s : %s_obj -> %s.\nVariable %s_set_%s : %s_obj -> %s -> %s_obj.\n",
+				n, s.Field(i).Name(), n, ft.coq(), n, s.Field(i).Name(), n, ft.coq(), n)
+		}
+		fmt.Fprintf(&b, "Variable %s_mk : %s -> %s_obj.\n", n, strings.Join(args, " -> "), n)
+	}
+	b.WriteString("(* strings.ToLower: a variable, as every stdlib function that is not transliterated *)\nVariable ext_strings_ToLower : bytes -> bytes.\n")
+	b.WriteString("(* the fuel of a for loop, read from the state at loop entry *)\nVariable loop_fuel : HS -> nat.\n")
+	hdr := classOf(b.String())
+	b.Reset()
+	b.WriteString(top + hdr)
+	heapFunctions(&b, pi, registryTargets, "client")
+	return b.String()
+}
+
+func go2heap(pkgs map[string]*pkgInfo) string {
+	setStateProfile()
+	pi := pkgs["state"]
+	var b strings.Builder
+	b.WriteString(`(* GENERATED from the Go source by /verif/translator (go2heap.go) on every check run — do not edit.
+   Package state's object graph (tracker.go, nick.go, channel.go) over an explicit heap; every type
+   and primitive is a Context variable, instantiated in Proofs/GenEqTracker.v with the records of
+   Model/TrackerImpl.v.  See the header of translator/go2heap.go for the representation. *)
+` + heapPrelude)
 	if pi == nil {
 		return b.String()
 	}
@@ -1415,53 +1788,10 @@ Fixpoint go_foldM {A S} (f : S -> A -> option S) (s : S) (l : list A) : option S
 	b.WriteString("(* the order in which range visits a map *)\nVariable enumA : gmap positive positive -> list (positive * positive).\nVariable enumN : gmap bytes positive -> list (bytes * positive).\n\n")
 
 	// the primitives as ONE class, so that a generated function has one parameter
-	var cls strings.Builder
-	cls.WriteString("Class heap_ops := {\n")
-	for _, ln := range strings.Split(strings.TrimSpace(b.String()), "\n") {
-		switch {
-		case strings.HasPrefix(ln, "Variable "):
-			cls.WriteString("  " + strings.TrimSuffix(strings.TrimPrefix(ln, "Variable "), ".") + ";\n")
-		case strings.HasPrefix(ln, "Context {"):
-			for _, t := range strings.Fields(strings.TrimSuffix(strings.TrimPrefix(ln, "Context {"), " : Type}.")) {
-				cls.WriteString("  " + t + " : Type;\n")
-			}
-		case ln != "":
-			cls.WriteString("  " + ln + "\n")
-		}
-	}
-	hdr := strings.TrimSuffix(cls.String(), ";\n") + "\n}.\n\nSection Heap.\nContext `{heap_ops}.\n\n"
+	hdr := classOf(b.String())
 	b.Reset()
 	b.WriteString(top + hdr)
-	sigs := map[string]*hsig{}
-	wr := map[string]bool{}
-	for _, name := range heapTargets {
-		fd := pi.funcs[name]
-		coqName := "go_" + strings.ReplaceAll(name, ".", "_")
-		if fd == nil {
-			fmt.Fprintf(&b, "(* %s: not found *)\nDefinition %s_UNSUPPORTED : unit := tt.\n\n", name, coqName)
-			continue
-		}
-		func() {
-			defer func() {
-				if r := recover(); r != nil {
-					u, ok := r.(unsupported)
-					if !ok {
-						panic(r)
-					}
-					msg := strings.NewReplacer("(*", "( *", "*)", "* )", "\"", "'").Replace(u.msg)
-					fmt.Fprintf(&b, "(* %s: unsupported: %s *)\nDefinition %s_UNSUPPORTED : unit := tt.\n\n", name, msg, coqName)
-				}
-			}()
-			var txt string
-			for pass := 0; pass < 2 && txt == ""; pass++ {
-				h := &heapTr{pi: pi, info: pi.pkg.TypesInfo, sigs: sigs, vars: map[types.Object]*hvar{}, wr: wr}
-				txt = h.function(name, fd)
-			}
-			pos := pi.pkg.Fset.Position(fd.Pos())
-			fmt.Fprintf(&b, "(* %s — state/%s *)\n%s\n", name, pos.Filename[strings.LastIndex(pos.Filename, "/")+1:], txt)
-		}()
-	}
-	b.WriteString("End Heap.\n")
+	heapFunctions(&b, pi, heapTargets, "state")
 	_ = sort.Strings
 	return b.String()
 }
